@@ -445,7 +445,7 @@ async fn corrupt_ciphertext(w: &mut World) -> R<()> {
     let inst = w.inst.take().unwrap();
     timed("stop", inst.stop(true)).await?.map_err(Stop::Inconclusive)?;
     // newest non-empty log file of the partition; flip one byte in the tail of its last message (GCM tag)
-    let pdir = w.dir.join(format!("streams/1/topics/1/partitions/{part}"));
+    let pdir = w.dir.join(format!("streams/{SID}/topics/{TID}/partitions/{part}"));
     let mut logs: Vec<(u64, std::path::PathBuf)> = vec![];
     if let Ok(rd) = std::fs::read_dir(&pdir) {
         for e in rd.flatten() {
